@@ -5,7 +5,10 @@ use errno::{errno, Errno};
 use std::ffi::{c_void, CStr};
 use std::mem::size_of;
 use std::ptr;
+#[cfg(not(aws_clock_bound_verif))]
 use std::sync::atomic;
+#[cfg(aws_clock_bound_verif)]
+use verif_rt::atomic;
 
 use crate::shm_header::ShmHeader;
 use crate::{syserror, ClockErrorBound, ShmError};
@@ -83,6 +86,9 @@ impl MmapGuard {
             return syserror!("mmap SHM segment");
         }
 
+        #[cfg(aws_clock_bound_verif)]
+        verif_rt::shm::register_mapping_fd(segment.cast(), segsize, fdguard.0);
+
         Ok(MmapGuard { segment, segsize })
     }
 }
@@ -93,6 +99,9 @@ impl Drop for MmapGuard {
         // SAFETY: `segment` was previously returned from `mmap`, and therefore
         // when this destructor runs there are no more live references into
         // it.
+        #[cfg(aws_clock_bound_verif)]
+        verif_rt::shm::unregister_mapping(self.segment.cast());
+
         unsafe {
             let ret = libc::munmap(self.segment, self.segsize);
             assert!(ret == 0);
@@ -156,6 +165,11 @@ impl ShmReader {
     /// is uninitialized, unparseable, or otherwise malformed, EPROTO will be
     /// returned.
     pub fn new(path: &CStr) -> Result<ShmReader, ShmError> {
+        #[cfg(aws_clock_bound_verif)]
+        let path_redirected = verif_rt::shm::redirect_cstr(path);
+        #[cfg(aws_clock_bound_verif)]
+        let path = path_redirected.as_c_str();
+
         let fdguard = FdGuard::new(path)?;
         let mmap_guard = MmapGuard::new(&fdguard)?;
 
@@ -267,7 +281,10 @@ impl ShmReader {
         while retries > 0 {
             // Read the ClockErrorBound data from the shared memory
             // SAFETY: `ceb_at` has been checked to be valid while creating the ShmReader
+            #[cfg(not(aws_clock_bound_verif))]
             let snapshot = unsafe { self.ceb_shm.read_volatile() };
+            #[cfg(aws_clock_bound_verif)]
+            let snapshot = unsafe { verif_rt::shm::read_record(self.ceb_shm) };
 
             // Confirm no update occurred during the read
             let second_gen = generation.load(atomic::Ordering::Acquire);
